@@ -14,6 +14,7 @@ K (correspondence): the real loops run against recording wrappers of zstandard /
 from __future__ import annotations
 
 import itertools
+import re
 import random
 from typing import Any
 
@@ -33,6 +34,7 @@ OBLIGATIONS = [
     "VgiVerif.C18.C18_terminates_gzip",
     "VgiVerif.C18.C18_alloc_zstd",
     "VgiVerif.C18.C18_alloc_gzip",
+    "VgiVerif.C18.C18_library_defaults",
 ]
 TRUSTED = [
     "zstandard / zlib: dec(enc x) = x, content-size reporting, readers return a non-empty prefix of at most the requested "
@@ -43,7 +45,9 @@ RULE = (
     "exhaustive byte strings over {00,61,ff} up to length 5 (quick; the length-5 strings alternate over halves of the "
     "frame kinds) / 6 (thorough) x 12 frame kinds x caps "
     "{none,0,len-1,len,len+1,large}; structured large plaintexts (zeros/random/text) of sizes around CHUNK=65536 and its "
-    "multiples x caps around len and around CHUNK; all codec levels (thorough: zstd -7..22, gzip -1..9); every case once "
+    "multiples x caps around len and around CHUNK; all codec levels (thorough: zstd -7..22, gzip -1..9); zstd frames written "
+    "with explicit compressor parameters (window_log 10..27 = up to the 128 MiB a level-22 streaming compressor declares, "
+    "long-distance matching; size-less and size-declaring; thorough also the real streaming levels 20-22); every case once "
     "with full reads and once with rng-shortened reads; malformed frames (truncated / garbage / lying declared size / "
     "bit flip) for K only.  Distinct by (codec, frame kind, level, plaintext, cap, read-shortening seed); non-trivial "
     "when a cap is given or the frame is not identity"
@@ -66,6 +70,10 @@ MANIFEST = {
 ALPHABET = (0x00, 0x61, 0xFF)
 ZSTD_KINDS = ["repo", "oneshot_checksum", "streaming", "streaming_pieces", "stream_writer_size", "stream_writer_nosize", "arrow"]
 GZIP_KINDS = ["repo", "zlib_pieces", "gzipmod", "arrow"]
+# frames written with explicit compressor parameters: window sizes up to the 128 MiB a level-22 streaming compressor declares
+# (27 is also the largest window a default zstd decoder accepts), long-distance matching, on size-less and size-declaring frames
+ZSTD_PARAM_KINDS = ["stream_wlog23", "stream_wlog24", "stream_wlog25", "stream_wlog26", "stream_wlog27", "writer_wlog27", "stream_ldm27",
+                    "stream_ldm", "stream_lvl19_wlog27", "oneshot_wlog27", "oneshot_ldm27", "stream_wlog10"]
 
 
 def make_plain(spec: dict[str, Any]) -> bytes:
@@ -105,6 +113,14 @@ def build_frame(codec: str, kind: str, x: bytes, level: int | None) -> bytes:
             return cs.zstd_stream_writer(x, lv, with_size=False)
         if kind == "arrow":
             return cs.arrow_compressed(x, "zstd")
+        m = re.fullmatch(r"(stream|writer|oneshot)_(?:lvl(\d+)_)?(wlog|ldm)(\d*)", kind)
+        if m:
+            lvl_ = int(m.group(2)) if m.group(2) else (1 if level is None else level)
+            wlog = int(m.group(4)) if m.group(4) else 0
+            ldm = m.group(3) == "ldm"
+            if m.group(1) == "oneshot":
+                return cs.zstd_oneshot_params(x, lvl_, wlog, ldm)
+            return cs.zstd_params_streaming(x, lvl_, wlog, ldm, writer=(m.group(1) == "writer"))
     if codec == "gzip":
         lv = 6 if level is None else level
         if kind == "repo":
@@ -342,6 +358,33 @@ def run(ctx: Any) -> None:
                     for cap in caps_for(len(x)):
                         check_honest(ctx, pending, codec, kind, lv, pspec, x, frame, cap, None)
     flush(ctx, pending)
+
+    # ---- compressor parameters: large windows (what ultra levels declare), long-distance matching ---------------------
+    par_plain = [{"hex": ""}, {"hex": "61"}, {"pattern": "text", "n": 300}, {"pattern": "zeros", "n": 70000}]
+    if thorough:
+        par_plain += [{"pattern": "random", "n": 66000, "seed": 5}, {"pattern": "ramp", "n": 200000}]
+    for pi, pspec in enumerate(par_plain):
+        x = make_plain(pspec)
+        for kind in ZSTD_PARAM_KINDS:
+            if not thorough and pi >= 2 and kind in ("stream_wlog23", "stream_wlog25", "stream_wlog26", "oneshot_ldm27"):
+                continue
+            frame = build_frame("zstd", kind, x, None)
+            for cap in caps_for(len(x)):
+                check_honest(ctx, pending, "zstd", kind, None, pspec, x, frame, cap, None)
+                if cap is not None and len(x) > 1:
+                    seed_ctr += 1
+                    check_honest(ctx, pending, "zstd", kind, None, pspec, x, frame, cap, seed_ctr)
+    flush(ctx, pending)
+    # the real ultra levels through a streaming compressor (tens of seconds of compressor set-up each): thorough tier only
+    if thorough:
+        for lv in (20, 21, 22):
+            pspec = {"pattern": "text", "n": 480}
+            x = make_plain(pspec)
+            for kind in ("streaming", "stream_writer_nosize"):
+                frame = build_frame("zstd", kind, x, lv)
+                for cap in caps_for(len(x)):
+                    check_honest(ctx, pending, "zstd", kind, lv, pspec, x, frame, cap, None)
+        flush(ctx, pending)
 
     # ---- structured large plaintexts around CHUNK ---------------------------------------------------------------
     chunk = _codec._DECOMPRESS_CHUNK_BYTES
